@@ -204,6 +204,39 @@ def local_decls(fn_text):
     return out
 
 
+def _variable_idents(tx):
+    """identifiers of a contract text that can denote variables: not `.field` and not the `field:` label of a struct literal"""
+    sig = [t for t in tokenize(tx) if t.kind not in ("ws", "comment")]
+    res = set()
+    for i, t in enumerate(sig):
+        if t.kind != "ident":
+            continue
+        if i > 0 and sig[i - 1].text == ".":
+            continue
+        if i + 1 < len(sig) and sig[i + 1].text == ":" and i > 0 and sig[i - 1].text in ("{", ","):
+            # field label iff the innermost enclosing bracket is `{` (binders `|i: int|` / `(i: int)` are variables)
+            d = 0
+            j = i - 1
+            opener = None
+            while j >= 0:
+                x = sig[j].text
+                if x in (")", "]", "}"):
+                    d += 1
+                elif x in ("(", "[", "{"):
+                    if d == 0:
+                        opener = x
+                        break
+                    d -= 1
+                elif x == "|" and d == 0:
+                    opener = "|"
+                    break
+                j -= 1
+            if opener == "{":
+                continue
+        res.add(t.text)
+    return res
+
+
 def rename_map(baseline, current, fn_text, spec):
     """R16: {old: new} if the function declares the same locals in the same order with the same statements and only names differ"""
     if baseline is None or len(baseline) != len(current) or baseline == current:
@@ -221,7 +254,7 @@ def rename_map(baseline, current, fn_text, spec):
     spec_idents = set()
     for c in spec.clauses:
         for tx in (c.body or "", c.name or ""):
-            spec_idents |= set(t.text for t in tokenize(tx) if t.kind == "ident")
+            spec_idents |= _variable_idents(tx)
     if any(new in spec_idents for new in m.values()):   # would collide with a name the contract already uses
         return {}
     return m
@@ -231,7 +264,17 @@ def rename_spec(spec, m):
     def sub(tx):
         if not tx:
             return tx
-        return "".join(m.get(t.text, t.text) if t.kind == "ident" else t.text for t in tokenize(tx))
+        toks = tokenize(tx)
+        out = []
+        prev = None
+        for t in toks:
+            if t.kind == "ident" and t.text in m and not (prev is not None and prev.text == "."):
+                out.append(m[t.text])
+            else:
+                out.append(t.text)
+            if t.kind not in ("ws", "comment"):
+                prev = t
+        return "".join(out)
     ns = FnSpec(spec.path, spec.src)
     ns.returns, ns.attrs, ns.replace_body = spec.returns, list(spec.attrs), spec.replace_body
     for c in spec.clauses:
